@@ -1,68 +1,88 @@
-(* C19 — unique indexes.  The check of doUpsert reads only the first key under the value prefix, so
-   a tombstoned first entry lets duplicates in (refuted in Witness.v).  What does hold: as long as
-   nothing was ever deleted or replaced (insert-only histories on a fixed schema) no two live
-   documents share the tuple of a unique index. *)
+(* C19 — unique indexes.  doUpsert admits a write only when no live entry exists under the value
+   (or the document keeps its own tuple, or -- inside one operation -- no earlier document of the
+   operation took the tuple).  Consequence, for every history that leaves the typed fields alone:
+   no two live documents share the tuple of a unique index. *)
 From V Require Import Doc.Model Doc.Facts.
 From Coq Require Import Lia.
 Open Scope N_scope.
 
-Definition single (ds : list drec) : Prop :=
-  forall d, In d ds -> exists p r, d_vers d = [VPut p r].
-
-Lemma single_cur d p r : d_vers d = [VPut p r] -> cur d = Some (mkl (d_id d) p r).
-Proof. unfold cur. intros ->. reflexivity. Qed.
-
-Lemma single_ever_holds sch cols t d :
-  (exists p r, d_vers d = [VPut p r]) -> ever_had sch cols t d = holds_now sch cols t d.
+(* ---------- key equality is an equivalence ---------- *)
+Lemma cv_cmp_eq_sym a b : cv_cmp a b = Eq -> cv_cmp b a = Eq.
+Proof. intros H. rewrite (cv_cmp_anti a b), H. reflexivity. Qed.
+Lemma cv_cmp_eq_trans a b c : cv_cmp a b = Eq -> cv_cmp b c = Eq -> cv_cmp a c = Eq.
 Proof.
-  intros (p & r & V). unfold ever_had, holds_now. rewrite (single_cur d p r V), V. simpl.
-  rewrite orb_false_r. reflexivity.
+  intros H1 H2.
+  assert (A : cle (cv_cmp a c)) by (apply (cv_le_trans a b c); unfold cle; congruence).
+  assert (B : cle (cv_cmp c a)).
+  { apply (cv_le_trans c b a); unfold cle.
+    - rewrite (cv_cmp_eq_sym _ _ H2). congruence.
+    - rewrite (cv_cmp_eq_sym _ _ H1). congruence. }
+  unfold cle in *. rewrite (cv_cmp_anti a c) in B.
+  destruct (cv_cmp a c); simpl in *; congruence.
 Qed.
 
-Lemma first_entry_spec sch cols t ds : forall best res,
-  first_entry sch cols t ds best = res ->
-  match res with
-  | None => best = None /\ forall d, In d ds -> ever_had sch cols t d = false
-  | Some d => best = Some d \/ (In d ds /\ ever_had sch cols t d = true)
-  end.
+Definition dsign (v : cv) : option bool := match v with CDbl n => Some (nneg n) | _ => None end.
+
+Lemma kcmp_eq_iff nz a b :
+  cv_kcmp nz a b = Eq <-> (cv_cmp a b = Eq /\ (nz = true -> dsign a = dsign b)).
 Proof.
-  induction ds as [|d ds IH]; simpl; intros best res H.
-  - subst res. destruct best; auto. split; auto. intros ? [].
-  - destruct (ever_had sch cols t d) eqn:E.
-    + destruct best as [b|].
-      * destruct (bcmp (d_id d) (d_id b)); apply IH in H; destruct res as [x|];
-          try (destruct H as [H|[H1 H2]]; [inversion H; subst; auto|auto]);
-          try (destruct H as [H _]; discriminate).
-      * apply IH in H. destruct res as [x|].
-        -- destruct H as [H|[H1 H2]]; [inversion H; subst; auto|auto].
-        -- destruct H as [H _]; discriminate.
-    + apply IH in H. destruct res as [x|].
-      * destruct H as [H|[H1 H2]]; auto.
-      * destruct H as [H1 H2]. split; auto. intros d' [<-|Hin]; auto.
+  destruct a, b;
+    try (simpl; split; [intros H; split; auto|intros [H _]; exact H]; fail);
+    try (split; [intros H|intros [H _]]; exfalso; vm_compute in H; discriminate).
+  (* both DOUBLE *)
+  simpl. destruct (num_cmp n n0) eqn:E.
+  - destruct nz.
+    + destruct (nneg n), (nneg n0); simpl; split; intros H; try discriminate; auto;
+        try (destruct H as [_ H]; specialize (H eq_refl); discriminate).
+    + split; auto. intros _. split; auto. discriminate.
+  - split; [discriminate|intros [H _]; discriminate].
+  - split; [discriminate|intros [H _]; discriminate].
 Qed.
 
-Lemma find_doc_none_all ds id : find_doc ds id = None -> forall d, In d ds -> bytes_eqb (d_id d) id = false.
+Lemma kcmp_eq_sym nz a b : cv_kcmp nz a b = Eq -> cv_kcmp nz b a = Eq.
 Proof.
-  unfold find_doc. intros H d Hin. eapply find_none in H; eauto.
+  rewrite !kcmp_eq_iff. intros [H1 H2]. split; [apply cv_cmp_eq_sym; auto|].
+  intros Z. symmetry; auto.
+Qed.
+Lemma kcmp_eq_trans nz a b c : cv_kcmp nz a b = Eq -> cv_kcmp nz b c = Eq -> cv_kcmp nz a c = Eq.
+Proof.
+  rewrite !kcmp_eq_iff. intros [H1 H2] [H3 H4]. split; [eapply cv_cmp_eq_trans; eauto|].
+  intros Z. rewrite H2, H4; auto.
 Qed.
 
-Lemma put_version_new ds id v : find_doc ds id = None -> put_version ds id v = ds ++ [mkd id [v]].
+Lemma tuple_eqb_sym nz a b : tuple_eqb nz a b = true -> tuple_eqb nz b a = true.
 Proof.
-  induction ds as [|d ds IH]; simpl; intros H; auto.
-  destruct (bytes_eqb (d_id d) id) eqn:E; [discriminate|]. rewrite IH; auto.
+  unfold tuple_eqb. revert b; induction a as [|x a IH]; intros [|y b]; simpl; auto.
+  intros H. apply andb_prop in H as [H1 H2].
+  destruct (cv_kcmp nz x y) eqn:E; try discriminate.
+  rewrite (kcmp_eq_sym nz x y E). simpl. auto.
+Qed.
+Lemma tuple_eqb_trans nz a b c :
+  tuple_eqb nz a b = true -> tuple_eqb nz b c = true -> tuple_eqb nz a c = true.
+Proof.
+  unfold tuple_eqb. revert b c; induction a as [|x a IH]; intros [|y b] [|z c]; simpl; auto; try discriminate.
+  intros H G. apply andb_prop in H as [H1 H2]. apply andb_prop in G as [G1 G2].
+  destruct (cv_kcmp nz x y) eqn:E1; try discriminate.
+  destruct (cv_kcmp nz y z) eqn:E2; try discriminate.
+  rewrite (kcmp_eq_trans nz x y z E1 E2). simpl. eauto.
+Qed.
+Lemma tuple_neq_sym nz a b : tuple_eqb nz a b = false -> tuple_eqb nz b a = false.
+Proof.
+  intros H. destruct (tuple_eqb nz b a) eqn:E; auto.
+  apply tuple_eqb_sym in E. congruence.
 Qed.
 
-Lemma lives_app a b : lives (a ++ b) = lives a ++ lives b.
-Proof. induction a as [|d a IH]; simpl; auto. destruct (cur d); simpl; rewrite IH; auto. Qed.
+(* ---------- live rows of a version list after a write ---------- *)
+Lemma last_snoc {A} (l : list A) x d : last (l ++ [x]) d = x.
+Proof. induction l as [|y l IH]; simpl; auto. destruct (l ++ [x]) eqn:E; auto. destruct l; discriminate. Qed.
 
-Lemma pairwise_snoc {A} (p : A -> A -> bool) l x :
-  pairwise p (l ++ [x]) = pairwise p l && forallb (fun a => p a x) l.
+Lemma cur_in_lives ds d a : In d ds -> cur d = Some a -> In a (lives ds).
 Proof.
-  induction l as [|y l IH]; simpl; auto.
-  rewrite forallb_app, IH. simpl.
-  destruct (forallb (p y) l), (p y x), (pairwise p l), (forallb (fun a => p a x) l); reflexivity.
+  induction ds as [|d0 ds IH]; simpl; [intros []|].
+  intros [->|Hin] C.
+  - rewrite C. simpl; auto.
+  - destruct (cur d0); simpl; auto.
 Qed.
-
 Lemma in_lives ds l : In l (lives ds) -> exists d, In d ds /\ cur d = Some l.
 Proof.
   induction ds as [|d ds IH]; simpl; [intros []|].
@@ -71,119 +91,265 @@ Proof.
   - intros H. destruct (IH H) as (d' & ? & ?); eauto.
 Qed.
 
-(* an admitted insert passed the first-entry check of every unique index *)
-Lemma uniq_checks_ix_insert st id r ixs : forall pd pd',
-  find_doc (st_docs st) id = None ->
-  uniq_checks_ix st true id r ixs pd = Some pd' ->
-  forall ix, In ix ixs -> ix_unique ix = true ->
-    uniq_check1 (st_sch st) (ix_cols ix) (tuple_of (st_sch st) (ix_cols ix) id r) (st_docs st) = true.
+Lemma cur_id d a : cur d = Some a -> l_id a = d_id d.
+Proof. unfold cur. destruct (last (d_vers d) VDel); intros H; inversion H; reflexivity. Qed.
+
+Lemma lives_put_in ds id v a :
+  In a (lives (put_version ds id v)) ->
+  In a (lives ds) \/ (exists p r, v = VPut p r /\ a = mkl id p r).
 Proof.
-  induction ixs as [|ix0 ixs IH]; simpl; intros pd pd' F H ix Hin U; [destruct Hin|].
-  rewrite F in H. simpl in H.
+  induction ds as [|d ds IH]; simpl.
+  - unfold cur; simpl. destruct v; simpl; [|intros []].
+    intros [<-|[]]. right; eauto.
+  - destruct (bytes_eqb (d_id d) id) eqn:E; simpl.
+    + unfold cur at 1. simpl. rewrite last_snoc. destruct v.
+      * simpl. intros [<-|H]; [right; eauto|].
+        left. destruct (cur d); simpl; auto.
+      * intros H. left. destruct (cur d); simpl; auto.
+    + destruct (cur d) as [l0|]; simpl.
+      * intros [<-|H]; auto. destruct (IH H); auto.
+      * intros H. destruct (IH H); auto.
+Qed.
+
+(* ---------- document ids stay distinct ---------- *)
+Definition ND (st : state) : Prop := NoDup (map d_id (st_docs st)).
+
+Lemma find_doc_none_ids ds id : find_doc ds id = None -> ~ In id (map d_id ds).
+Proof.
+  unfold find_doc. intros H Hin. apply in_map_iff in Hin as (d & <- & Hd).
+  eapply find_none in H; eauto. simpl in H. rewrite bytes_eqb_refl in H. discriminate.
+Qed.
+Lemma put_version_ids ds id v :
+  map d_id (put_version ds id v) =
+  match find_doc ds id with Some _ => map d_id ds | None => map d_id ds ++ [id] end.
+Proof.
+  unfold find_doc. induction ds as [|d ds IH]; simpl; auto.
+  destruct (bytes_eqb (d_id d) id) eqn:E; simpl.
+  - apply bytes_eqb_eq in E. rewrite E. reflexivity.
+  - rewrite IH. destruct (find _ ds); reflexivity.
+Qed.
+Lemma nodup_snoc {A} (l : list A) x : NoDup l -> ~ In x l -> NoDup (l ++ [x]).
+Proof.
+  induction l as [|y l IH]; simpl; intros N H.
+  - constructor; auto.
+  - inversion N; subst. constructor.
+    + intros Hin. apply in_app_or in Hin as [Hin|[<-|[]]]; auto.
+    + apply IH; auto.
+Qed.
+Lemma put_version_nodup ds id v : NoDup (map d_id ds) -> NoDup (map d_id (put_version ds id v)).
+Proof.
+  intros H. rewrite put_version_ids. destruct (find_doc ds id) eqn:F; auto.
+  apply find_doc_none_ids in F.
+  apply nodup_snoc; auto.
+Qed.
+
+(* ---------- the invariant ---------- *)
+Definition tup (st : state) (ix : index) (a : lrow) : list cv := row_tuple (st_sch st) (ix_cols ix) a.
+
+Definition U (st : state) : Prop :=
+  forall ix, In ix (s_indexes (st_sch st)) -> ix_unique ix = true ->
+  forall a b, In a (lives (st_docs st)) -> In b (lives (st_docs st)) -> l_id a <> l_id b ->
+    tuple_eqb (s_nz (st_sch st)) (tup st ix a) (tup st ix b) = false.
+
+(* an admitted upsert either keeps the document's tuple or found no live entry under the tuple *)
+Lemma uniq_checks_ix_admitted st ins id r ixs : forall pd pd',
+  uniq_checks_ix st ins id r ixs pd = Some pd' ->
+  forall ix, In ix ixs -> ix_unique ix = true ->
+    let t := tuple_of (st_sch st) (ix_cols ix) id r in
+    (exists d, find_doc (st_docs st) id = Some d /\ holds_now (st_sch st) (ix_cols ix) t d = true) \/
+    uniq_check1 (st_sch st) (ix_cols ix) t (st_docs st) = true.
+Proof.
+  induction ixs as [|ix0 ixs IH]; simpl; intros pd pd' H ix Hin Un; [destruct Hin|].
   destruct (ix_unique ix0) eqn:U0.
-  - destruct (pend_has _ pd (ix_cols ix0) _); try discriminate.
-    destruct (uniq_check1 (st_sch st) (ix_cols ix0) _ (st_docs st)) eqn:C; try discriminate.
-    destruct Hin as [<-|Hin]; auto. eapply IH; eauto.
+  - destruct (find_doc (st_docs st) id) as [d|] eqn:F.
+    + destruct (negb ins && holds_now (st_sch st) (ix_cols ix0) (tuple_of (st_sch st) (ix_cols ix0) id r) d) eqn:S.
+      * destruct Hin as [<-|Hin]; [|eapply IH; eauto].
+        left. exists d. apply andb_prop in S as [_ S]. auto.
+      * destruct (pend_has _ pd (ix_cols ix0) _); try discriminate.
+        destruct (uniq_check1 (st_sch st) (ix_cols ix0) _ (st_docs st)) eqn:C; try discriminate.
+        destruct Hin as [<-|Hin]; [right; exact C|eapply IH; eauto].
+    + simpl in H. destruct (pend_has _ pd (ix_cols ix0) _); try discriminate.
+      destruct (uniq_check1 (st_sch st) (ix_cols ix0) _ (st_docs st)) eqn:C; try discriminate.
+      destruct Hin as [<-|Hin]; [right; exact C|eapply IH; eauto].
   - destruct Hin as [<-|Hin]; [congruence|]. eapply IH; eauto.
 Qed.
 
-(* one insert keeps the invariant *)
-Lemma upsert1_insert_keeps st id p pd st' pd' :
-  single (st_docs st) -> uniq_okb st = true ->
-  upsert1 st true id p pd = Ok (st', pd') ->
-  st_sch st' = st_sch st /\ single (st_docs st') /\ uniq_okb st' = true.
+Lemma find_doc_some ds id d : find_doc ds id = Some d -> In d ds /\ d_id d = id.
 Proof.
-  intros S U H. unfold upsert1 in H.
-  destruct (gen_row _ (s_fields (st_sch st)) p) as [r| |]; simpl in H; try discriminate.
-  destruct (find_doc (st_docs st) id) as [d0|] eqn:F; simpl in H; try discriminate.
-  destruct (uniq_checks st true id r pd) as [pd1|] eqn:UC; try discriminate.
-  inversion H; subst; clear H. simpl.
-  rewrite (put_version_new _ _ _ F).
-  split; auto. split.
-  - intros d Hin. apply in_app_or in Hin as [Hin|[<-|[]]]; auto. simpl; eauto.
-  - unfold uniq_okb in *. simpl. rewrite forallb_forall in *. intros ix Hix.
-    specialize (U ix Hix). destruct (ix_unique ix) eqn:IU; simpl in *; auto.
-    rewrite lives_app. simpl. rewrite pairwise_snoc, U. simpl.
-    (* the unique check of this index *)
-    pose proof (uniq_checks_ix_insert st id r _ pd pd' F UC ix Hix IU) as C1.
-    unfold uniq_check1 in C1.
-    set (t := tuple_of (st_sch st) (ix_cols ix) id r) in *.
-    apply forallb_forall. intros a Ha.
-    apply in_lives in Ha as (d & Hd & Cd).
-    unfold row_tuple. simpl. fold t.
-    assert (HN : holds_now (st_sch st) (ix_cols ix) t d = false).
-    { destruct (s_uf (st_sch st)).
-      - destruct (first_entry (st_sch st) (ix_cols ix) t (st_docs st) None) as [d1|] eqn:FE.
-        + apply first_entry_spec in FE as [FE|[FE1 FE2]]; [discriminate|].
-          rewrite (single_ever_holds _ _ _ d1 (S d1 FE1)) in FE2. rewrite FE2 in C1. discriminate.
-        + apply first_entry_spec in FE as [_ FE].
-          rewrite <- (single_ever_holds _ _ _ d (S d Hd)). auto.
-      - apply negb_true_iff in C1.
-        destruct (holds_now (st_sch st) (ix_cols ix) t d) eqn:HH; auto.
-        assert (existsb (holds_now (st_sch st) (ix_cols ix) t) (st_docs st) = true)
-          by (apply existsb_exists; eauto). congruence. }
-    unfold holds_now in HN. rewrite Cd in HN. rewrite HN. reflexivity.
+  unfold find_doc. intros H. apply find_some in H as [H1 H2]. split; auto. apply bytes_eqb_eq; auto.
+Qed.
+
+(* a live row of another document has a different tuple than the admitted one *)
+Lemma admitted_distinct st ix id r b :
+  U st -> In ix (s_indexes (st_sch st)) -> ix_unique ix = true ->
+  let t := tuple_of (st_sch st) (ix_cols ix) id r in
+  ((exists d, find_doc (st_docs st) id = Some d /\ holds_now (st_sch st) (ix_cols ix) t d = true) \/
+   uniq_check1 (st_sch st) (ix_cols ix) t (st_docs st) = true) ->
+  In b (lives (st_docs st)) -> l_id b <> id ->
+  tuple_eqb (s_nz (st_sch st)) (tup st ix b) t = false.
+Proof.
+  intros HU Hix Un t [[d [F HN]]|C] Hb Hne.
+  - apply find_doc_some in F as [Fin Fid].
+    unfold holds_now in HN. destruct (cur d) as [o|] eqn:Co; [|discriminate].
+    pose proof (cur_in_lives _ _ _ Fin Co) as Ho.
+    pose proof (cur_id _ _ Co) as Io.
+    assert (Hbo : l_id b <> l_id o) by congruence.
+    pose proof (HU ix Hix Un b o Hb Ho Hbo) as D. unfold tup, row_tuple in *.
+    destruct (tuple_eqb (s_nz (st_sch st)) (tuple_of (st_sch st) (ix_cols ix) (l_id b) (l_row b)) t) eqn:E; auto.
+    apply tuple_eqb_sym in HN.
+    rewrite (tuple_eqb_trans _ _ _ _ E HN) in D. discriminate.
+  - unfold uniq_check1 in C. apply negb_true_iff in C.
+    apply in_lives in Hb as (d & Hd & Cd).
+    destruct (holds_now (st_sch st) (ix_cols ix) t d) eqn:HH.
+    + assert (existsb (holds_now (st_sch st) (ix_cols ix) t) (st_docs st) = true)
+        by (apply existsb_exists; eauto). congruence.
+    + unfold holds_now in HH. rewrite Cd in HH. exact HH.
+Qed.
+
+Lemma upsert1_keeps st ins id p pd st' pd' :
+  U st -> ND st -> upsert1 st ins id p pd = Ok (st', pd') ->
+  st_sch st' = st_sch st /\ U st' /\ ND st'.
+Proof.
+  intros HU HN H. unfold upsert1 in H.
+  destruct (gen_row (s_fields (st_sch st)) p) as [r| |]; simpl in H; try discriminate.
+  destruct (ins && _); try discriminate.
+  destruct (uniq_checks st ins id r pd) as [pd1|] eqn:UC; try discriminate.
+  inversion H; subst; clear H. simpl. split; auto. split.
+  2:{ unfold ND. simpl. apply put_version_nodup. exact HN. }
+  intros ix Hix Un a b Ha Hb Hab. simpl in *.
+  pose proof (uniq_checks_ix_admitted st ins id r _ pd pd' UC ix Hix Un) as AD.
+  apply lives_put_in in Ha. apply lives_put_in in Hb.
+  destruct Ha as [Ha|(pa & ra & Ea & ->)]; destruct Hb as [Hb|(pb & rb & Eb & ->)].
+  - apply (HU ix Hix Un a b Ha Hb Hab).
+  - inversion Eb; subst. simpl in Hab.
+    apply (admitted_distinct st ix id rb a HU Hix Un AD Ha Hab).
+  - inversion Ea; subst. simpl in Hab.
+    apply tuple_neq_sym.
+    apply (admitted_distinct st ix id ra b HU Hix Un AD Hb). congruence.
+  - simpl in Hab. congruence.
 Qed.
 
 Lemma insert_all_keeps l : forall st pd st',
-  single (st_docs st) -> uniq_okb st = true -> insert_all st l pd = Ok st' ->
-  st_sch st' = st_sch st /\ single (st_docs st') /\ uniq_okb st' = true.
+  U st -> ND st -> insert_all st l pd = Ok st' -> st_sch st' = st_sch st /\ U st' /\ ND st'.
 Proof.
-  induction l as [|[i d] l IH]; simpl; intros st pd st' S U H.
+  induction l as [|[i d] l IH]; simpl; intros st pd st' HU HN H.
   - inversion H; subst; auto.
   - destruct (has_key d doc_blob); try discriminate.
     destruct (has_key d (s_id (st_sch st))); try discriminate.
     destruct (upsert1 st true i (with_id (st_sch st) d i) pd) as [[st1 pd1]| |] eqn:E; simpl in H; try discriminate.
-    destruct (upsert1_insert_keeps st i _ pd st1 pd1 S U E) as (S1 & S2 & S3).
+    destruct (upsert1_keeps st true i _ pd st1 pd1 HU HN E) as (S1 & S2 & S3).
     destruct (IH st1 pd1 st' S2 S3 H) as (T1 & T2 & T3). split; [congruence|auto].
 Qed.
-
-Lemma step_insert_or_read_keeps st o :
-  insert_or_read o = true -> single (st_docs st) -> uniq_okb st = true ->
-  single (st_docs (fst (step st o))) /\ uniq_okb (fst (step st o)) = true.
+Lemma replace_all_keeps ids : forall st doc pd st',
+  U st -> ND st -> replace_all st ids doc pd = Ok st' -> st_sch st' = st_sch st /\ U st' /\ ND st'.
 Proof.
-  intros Ho S U.
+  induction ids as [|i ids IH]; simpl; intros st doc pd st' HU HN H.
+  - inversion H; subst; auto.
+  - destruct (upsert1 st false i (with_id (st_sch st) doc i) pd) as [[st1 pd1]| |] eqn:E; simpl in H; try discriminate.
+    destruct (upsert1_keeps st false i _ pd st1 pd1 HU HN E) as (S1 & S2 & S3).
+    destruct (IH st1 doc pd1 st' S2 S3 H) as (T1 & T2 & T3). split; [congruence|auto].
+Qed.
+
+Lemma delete_all_keeps ids : forall sch ds,
+  U (mkst sch ds) -> ND (mkst sch ds) ->
+  U (mkst sch (fold_left (fun ds i => put_version ds i VDel) ids ds)) /\
+  ND (mkst sch (fold_left (fun ds i => put_version ds i VDel) ids ds)).
+Proof.
+  induction ids as [|i ids IH]; simpl; intros sch ds HU HN; auto.
+  apply IH.
+  - intros ix Hix Un a b Ha Hb Hab. simpl in *.
+    apply lives_put_in in Ha as [Ha|(p & r & E & _)]; [|discriminate].
+    apply lives_put_in in Hb as [Hb|(p & r & E & _)]; [|discriminate].
+    apply (HU ix Hix Un a b Ha Hb Hab).
+  - unfold ND in *. simpl in *. apply put_version_nodup; auto.
+Qed.
+
+Lemma step_keeps st o :
+  keeps_fields o = true -> U st -> ND st -> U (fst (step st o)) /\ ND (fst (step st o)).
+Proof.
+  intros Ho HU HN.
   destruct o as [l|q doc|q|name t|name|cols uniq|cols|q off|q off|id|id desc off lim];
     try discriminate; [unfold step|simpl..].
   - destruct l as [|p l']; [simpl; auto|]. cbv iota. generalize (p :: l'). intros L.
     destruct (insert_all st L []) as [st1| |] eqn:E; simpl; auto.
-    destruct (insert_all_keeps L st [] st1 S U E) as (_ & ? & ?). auto.
+    destruct (insert_all_keeps L st [] st1 HU HN E) as (_ & ? & ?). auto.
+  - destruct (engine_search st (inject_id (st_sch st) doc q) 0) as [rows| |]; simpl; auto.
+    destruct (replace_all st (map l_id rows) doc []) as [st1| |] eqn:E; simpl; auto.
+    destruct (replace_all_keeps _ st doc [] st1 HU HN E) as (_ & ? & ?). auto.
+  - destruct (engine_search st q 0) as [rows| |]; simpl; auto.
+    destruct st as [sch ds]. apply delete_all_keeps; auto.
+  - (* create index *)
+    destruct cols as [|c cols']; [simpl; auto|].
+    destruct (negb (forallb (col_exists (st_sch st)) (c :: cols')) ||
+              existsb (index_eqb (c :: cols')) (s_indexes (st_sch st)) ||
+              list_eqb bytes_eqb (c :: cols') (primary_cols (st_sch st)) ||
+              uniq && match lives (st_docs st) with [] => false | _ :: _ => true end) eqn:C; simpl; auto.
+    split; [|exact HN].
+    apply orb_false_iff in C as [_ C].
+    intros ix Hix Un a b Ha Hb Hab. simpl in *.
+    apply in_app_or in Hix as [Hix|[<-|[]]].
+    + apply (HU ix Hix Un a b Ha Hb Hab).
+    + simpl in Un. subst uniq. simpl in C. destruct (lives (st_docs st)); [destruct Ha|discriminate].
+  - (* delete index *)
+    destruct (existsb (index_eqb cols) (s_indexes (st_sch st))); simpl; auto.
+    split; [|exact HN].
+    intros ix Hix Un a b Ha Hb Hab. simpl in *.
+    apply filter_In in Hix as [Hix _].
+    apply (HU ix Hix Un a b Ha Hb Hab).
   - destruct (engine_matched st q); simpl; auto.
   - destruct (engine_matched st q); simpl; auto.
   - destruct (find_doc (st_docs st) id); simpl; auto. destruct (cur d); simpl; auto.
   - destruct (find_doc (st_docs st) id); simpl; auto. destruct (_ || _); simpl; auto.
 Qed.
 
-Lemma run_fst_snoc ops : forall st o,
-  fst (run st (ops ++ [o])) = fst (step (fst (run st ops)) o).
-Proof.
-  induction ops as [|a ops IH]; simpl; intros st o.
-  - destruct (step st o); reflexivity.
-  - destruct (step st a) as [st1 x]. specialize (IH st1 o).
-    destruct (run st1 (ops ++ [o])) as [s2 xs2]. destruct (run st1 ops) as [s3 xs3]. simpl in *. exact IH.
-Qed.
-
 Lemma run_keeps ops : forall st,
-  forallb insert_or_read ops = true -> single (st_docs st) -> uniq_okb st = true ->
-  single (st_docs (fst (run st ops))) /\ uniq_okb (fst (run st ops)) = true.
+  forallb keeps_fields ops = true -> U st -> ND st ->
+  U (fst (run st ops)) /\ ND (fst (run st ops)).
 Proof.
-  induction ops as [|o ops IH]; simpl; intros st H S U; auto.
+  induction ops as [|o ops IH]; simpl; intros st H HU HN; auto.
   apply andb_prop in H as [Ho Hr].
-  destruct (step_insert_or_read_keeps st o Ho S U) as [S1 U1].
+  destruct (step_keeps st o Ho HU HN) as [U1 N1].
   destruct (step st o) as [st1 x]. simpl in *.
-  specialize (IH st1 Hr S1 U1). destruct (run st1 ops) as [st2 xs]. simpl in *. exact IH.
+  specialize (IH st1 Hr U1 N1). destruct (run st1 ops) as [st2 xs]. simpl in *. exact IH.
 Qed.
 
-Lemma uniq_ok_init sch : uniq_okb (init sch) = true.
+(* ---------- from the invariant to the boolean predicate ---------- *)
+Lemma lives_ids_nodup ds : NoDup (map d_id ds) -> NoDup (map l_id (lives ds)).
 Proof.
-  unfold uniq_okb. simpl. apply forallb_forall. intros ix _. destruct (ix_unique ix); reflexivity.
+  induction ds as [|d ds IH]; simpl; intros H; [constructor|].
+  inversion H; subst. destruct (cur d) as [a|] eqn:C; simpl; auto.
+  constructor; auto. rewrite (cur_id _ _ C). intros Hin. apply H2.
+  apply in_map_iff in Hin as (b & Eb & Hb). apply in_lives in Hb as (d' & Hd' & Cd').
+  rewrite <- Eb, (cur_id _ _ Cd'). apply in_map; auto.
 Qed.
 
-(* unique_index_no_duplicates, for insert-only histories *)
-Theorem unique_partial sch ops :
-  forallb insert_or_read ops = true -> uniq_okb (fst (run (init sch) ops)) = true.
+Lemma pairwise_of_distinct (p : lrow -> lrow -> bool) l :
+  NoDup (map l_id l) -> (forall a b, In a l -> In b l -> l_id a <> l_id b -> p a b = true) ->
+  pairwise p l = true.
 Proof.
-  intros H. apply run_keeps; auto.
-  - intros d [].
-  - apply uniq_ok_init.
+  induction l as [|x l IH]; simpl; intros N H; auto.
+  inversion N; subst. apply andb_true_intro. split.
+  - apply forallb_forall. intros y Hy. apply H; auto. intros E. apply H2. rewrite E. apply in_map; auto.
+  - apply IH; auto.
+Qed.
+
+Lemma U_uniq_okb st : U st -> ND st -> uniq_okb st = true.
+Proof.
+  intros HU HN. unfold uniq_okb. apply forallb_forall. intros ix Hix.
+  destruct (ix_unique ix) eqn:Un; simpl; auto.
+  apply pairwise_of_distinct.
+  - apply lives_ids_nodup. exact HN.
+  - intros a b Ha Hb Hab. pose proof (HU ix Hix Un a b Ha Hb Hab) as X. unfold tup in X.
+    rewrite X. reflexivity.
+Qed.
+
+(* unique_index_no_duplicates, for every history that does not add or remove fields *)
+Theorem unique_no_duplicates sch ops :
+  forallb keeps_fields ops = true -> uniq_okb (fst (run (init sch) ops)) = true.
+Proof.
+  intros H.
+  destruct (run_keeps ops (init sch) H) as [HU HN].
+  - intros ix _ _ a b [].
+  - constructor.
+  - apply U_uniq_okb; auto.
 Qed.
